@@ -308,18 +308,20 @@ def build(rng, nav_allowed=True):
     q = rng.choice([2, 4, 4, 12])
     part = S.Part("U", "unfold", quarter_duration=q)
     ts = rng.choice([(4, 4), (3, 4), (2, 4)])
-    part.add(S.TimeSignature(*ts), 0)
-    part.add(S.KeySignature(rng.randint(-3, 3), "major"), 0)
-    part.add(S.Clef(1, "G", 2, 0), 0)
-    state = {"t": 0, "q": q, "ts": ts, "mno": 0, "notes": [], "nid": 0}
+    # the first time point of a part need not be 0 (a part cut out of a longer one, a part that enters later)
+    T0 = rng.choice([1, 3, 4]) * q * 4 * ts[0] // ts[1] if rng.random() < 0.25 else 0
+    part.add(S.TimeSignature(*ts), T0)
+    part.add(S.KeySignature(rng.randint(-3, 3), "major"), T0)
+    part.add(S.Clef(1, "G", 2, 0), T0)
+    state = {"t": T0, "q": q, "ts": ts, "mno": 0, "notes": [], "nid": 0}
 
     def add_measures(n):
         start = state["t"]
         for _ in range(n):
-            if rng.random() < 0.08 and state["t"] > 0:
+            if rng.random() < 0.08 and state["t"] > T0:
                 state["ts"] = rng.choice([x for x in [(4, 4), (3, 4), (2, 4)] if x != state["ts"]])   # a real change (redundant ones are elided by design)
                 part.add(S.TimeSignature(*state["ts"]), state["t"])
-            if rng.random() < 0.06 and state["t"] > 0:
+            if rng.random() < 0.06 and state["t"] > T0:
                 state["q"] = rng.choice([2, 4, 6, 12])
                 part.set_quarter_duration(state["t"], state["q"])
             bar = state["q"] * 4 * state["ts"][0] // state["ts"][1]
